@@ -554,7 +554,7 @@ Proof.
   intros op x y. destruct op; simpl; unfold textual_binary, numerical_binary, cmp_is;
     try (destruct (to_text x); [|exact I]; destruct (to_text y); exact I);
     (destruct (to_number x) as [n1|]; [|exact I]; destruct (to_number y) as [n2|]; [|exact I]); try exact I.
-  - destruct (dec_mul n1 n2); [exact I|reflexivity].
+  - destruct (exponent_out_of_range _); [exact I|]. destruct (dec_mul n1 n2); [exact I|reflexivity].
   - destruct (dec_eqb n2 (Dec 0 0)) eqn:E; [exact I|].
     unfold dec_div, dec_div_round. destruct (dec_quorem n1 n2 division_precision) as [c|[q r]] eqn:Eq.
     + apply dec_quorem_class in Eq. destruct Eq as [[Hc Hz]|Hc]; subst c; [|reflexivity].
@@ -562,12 +562,31 @@ Proof.
     + destruct (dec_cmp _ _); exact I.
 Qed.
 
-(* every operator except * and / is free of panics of any class *)
-Lemma eval_binop_no_panic : forall op x y, op <> OMul -> op <> ODiv -> ok false (eval_binop op x y).
+(* every operator except / is free of panics of any class: Multiply checks the exponent sum itself *)
+Lemma eval_binop_no_panic : forall op x y, op <> ODiv -> ok false (eval_binop op x y).
 Proof.
-  intros op x y H1 H2. destruct op; try contradiction; simpl; unfold textual_binary, numerical_binary, cmp_is;
+  intros op x y H2. destruct op; try contradiction; simpl; unfold textual_binary, numerical_binary, cmp_is;
     try (destruct (to_text x); [|exact I]; destruct (to_text y); exact I);
-    (destruct (to_number x) as [n1|]; [|exact I]; destruct (to_number y) as [n2|]; exact I).
+    (destruct (to_number x) as [n1|]; [|exact I]; destruct (to_number y) as [n2|]; [|exact I]); try exact I.
+  destruct (exponent_out_of_range (dexp n1 + dexp n2)) eqn:E; [exact I|].
+  unfold exponent_out_of_range, max_number_exponent in E. apply orb_false_iff in E as [E1 E2].
+  apply Z.ltb_ge in E1. apply Z.ltb_ge in E2. unfold dec_mul.
+  replace (in_int32 (dexp n1 + dexp n2)) with true; [exact I|].
+  symmetry. unfold in_int32, int32_min, int32_max. apply andb_true_iff. split; apply Z.leb_le; lia.
+Qed.
+
+Lemma binop_no_panic_statement : forall op x y c, op <> ODiv -> eval_binop op x y <> Panic c.
+Proof. intros op x y c H. apply ok_false_iff. apply eval_binop_no_panic. assumption. Qed.
+
+(* a product whose decimal exponent would leave the limit is an error VALUE *)
+Lemma multiply_out_of_range : forall x y n1 n2, to_number x = Ok n1 -> to_number y = Ok n2 ->
+  (dexp n1 + dexp n2 < - max_number_exponent \/ max_number_exponent < dexp n1 + dexp n2) ->
+  eval_binop OMul x y = Ret VErr.
+Proof.
+  intros x y n1 n2 H1 H2 Hr. simpl. unfold numerical_binary. rewrite H1, H2.
+  replace (exponent_out_of_range (dexp n1 + dexp n2)) with true; [reflexivity|].
+  symmetry. unfold exponent_out_of_range. apply orb_true_iff.
+  destruct Hr; [left; apply Z.ltb_lt|right; apply Z.ltb_lt]; assumption.
 Qed.
 
 (* the divide-by-zero guard: an error VALUE *)
@@ -880,8 +899,9 @@ Proof. exists (fun _ _ => Ret VNil). intros; discriminate. Qed.
 Example numbers_sized_satisfiable : numbers_sized [VNum (Dec 15 (-1)); VNum (Dec 100 0)].
 Proof. apply (numbers_sized_numbers [Dec 15 (-1); Dec 100 0]). Qed.
 
-(* the exponent class is really reachable in the model: Decimal.Mul of two numbers whose exponents add up
-   beyond int32 (goflow: `@(0.1 ^ 2000000000 * 0.1 ^ 2000000000)`) *)
-Example mul_exponent_panics :
-  eval_binop OMul (VNum (Dec 1 (-2000000000))) (VNum (Dec 1 (-2000000000))) = Panic PExponent.
+(* the exponent class is still reachable in the MODEL: Decimal.QuoRem on two numbers whose exponents are more
+   than 2^31 apart.  No evaluation produces such numbers since multiplication and exponentiation limit the
+   exponent to +-100000 (that invariant is not proved here); a caller of operators.Divide can construct them. *)
+Example quorem_exponent_panics :
+  eval_binop ODiv (VNum (Dec 1 2147483647)) (VNum (Dec 1 (-100))) = Panic PExponent.
 Proof. vm_compute. reflexivity. Qed.
